@@ -211,17 +211,28 @@ def step (s : St) : Act → Option St
     | _ => none
   -- ---------------------------------------------------------------- main goroutine
   | .mainStart =>
+    -- `goTracked` (repaired code, finding C02-F4): nothing is added to the WaitGroup once Shutdown has
+    -- begun.  The three manager launches are one step here (no runnable exists yet, so only a direct
+    -- Shutdown() call can fall between them).
     if s.main == .init && 0 < s.n then
-      some { s with main := .launch 0,
-                    reloadMgr := if anyCap s (·.reloadable) then .running else .absent,
-                    stateMon := if anyCap s (·.stateable) then .running else .absent,
-                    sdMgr := if anyCap s (·.shutdownSender) then .running else .absent,
-                    listeners := s.caps.map fun c => if c.shutdownSender then .waitTrig else .absent }
+      if s.once == .fresh then
+        some { s with main := .launch 0,
+                      reloadMgr := if anyCap s (·.reloadable) then .running else .absent,
+                      stateMon := if anyCap s (·.stateable) then .running else .absent,
+                      sdMgr := if anyCap s (·.shutdownSender) then .running else .absent,
+                      listeners := s.caps.map fun c => if c.shutdownSender then .waitTrig else .absent }
+      else some { s with main := .launch 0 }
     else none
   | .mainLaunch i =>
+    -- `goTracked(startRunnable r_i)`: refused once Shutdown has begun; Run then leaves the start-up loop.
+    -- An addition while Shutdown's `wg.Wait()` is in progress is the WaitGroup misuse that panicked
+    -- the pinned code (`panicked` records it; unreachable with the guard).
     if s.main == .launch i && i < s.n then
-      some { s with rg := s.rg.set i .spawned, stTimeout := false,
-                    main := if (capAt s i).stateable then .gateSleep i else s.next i }
+      if s.once == .fresh then
+        some { s with rg := s.rg.set i .spawned, stTimeout := false,
+                      panicked := s.panicked || s.sd == .waiting,
+                      main := if (capAt s i).stateable then .gateSleep i else s.next i }
+      else some { s with main := .reap }
     else none
   | .gateWake i =>
     if s.main == .gateSleep i then some { s with main := .gatePoll i } else none
